@@ -1,5 +1,5 @@
 SPECIFICATION FairSpec
-CONSTANTS Cap = 1  Payload = 2  Variant = "run_process"  Drain = TRUE  CloseAll = TRUE  Timeout = TRUE  Escalate = TRUE  ProgName = "hang"
+CONSTANTS Cap = 1  Payload = 2  Variant = "run_process"  Drain = TRUE  CloseAll = TRUE  Timeout = TRUE  Escalate = TRUE  DtorSig = "KILL"  ProgName = "hang"
 CONSTANT Prog <- MCProg
 INVARIANTS OutputComplete StatusExact Reaped AllFdsClosed StdinDelivered NoThrowUnlessEpipe TimeoutEnds
 PROPERTY Termination
